@@ -35,6 +35,12 @@ def oracle(kind, a):
         return ("pow", ("mul", (c, ("inv", ("abs", c)))), n), ("mul", (n, ("log", ("abs", c))))
     if kind == "Identity":
         return ("num", 1), ("num", 0)
+    if kind == "Transpose":
+        # det(Aᵀ) = det A
+        return S(0, ("ssym", f"{a}.A")), S(1, ("ssym", f"{a}.A"))
+    if kind == "Adjoint":
+        # det(Aᴴ) = conj(det A): same magnitude, conjugated sign
+        return ("conj", S(0, ("ssym", f"{a}.A"))), S(1, ("ssym", f"{a}.A"))
     return None
 
 
@@ -78,28 +84,10 @@ def run(idx, rep, tier):
                 # Krylov / trace-of-log path: sign domain only
                 sign_domain(rep, construct, v, loc, krylov=True)
                 continue
-            if len(kinds) != 1:
-                rep.undecided("rule-algebra", construct, "union-typed operand", locs=[loc])
-                continue
-            kind = kinds[0]
-            if kind == "Permutation":
-                comp = v[1] if v[0] == "tuple" else ()
-                dep = any(mentions(c, ("ssym", f"{a}.perm")) for c in comp) if comp else False
-                if v[0] == "tuple" and not dep and not has_opaque(v):
-                    rep.refuted("dependence", construct, f"returns {show(snorm(v))}: the sign does not depend on the permutation, but odd permutations have determinant -1",
-                                detail="sign-constant", locs=[loc])
-                else:
-                    rep.decide(True if dep else None, "dependence", construct, f"returns {show(snorm(v))}", locs=[loc])
-                continue
-            want = oracle(kind, a)
-            if want is None:
-                rep.undecided("rule-algebra", construct, f"no oracle entry for {kind}", locs=[loc])
-                continue
-            wt = ("tuple", want)
-            ok = equal(v, wt)
-            rep.decide(ok, "rule-algebra", construct, f"returns {show(snorm(v))}; required {show(snorm(wt))}" + (f" [outside the grammar: {opaque_text(snorm(v))}]" if ok is None else ""),
-                       detail="" if ok else "pair", locs=[loc], derivation={"got": show(snorm(v)), "want": show(snorm(wt))})
-            sign_domain(rep, construct, v, loc, krylov=False)
+            if v[0] == "sldpair":
+                v = ("tuple", (S(0, v[1]), S(1, v[1])))
+            for kind in kinds:
+                rule_for_kind(rep, construct if len(kinds) == 1 else f"{construct}:{kind}", kind, a, v, loc)
         # recursive calls forward both algorithm arguments
         rec = [c for c in df.calls(fi.node) if isinstance(c.func, ast.Name) and c.func.id == "slogdet"]
         if rec and len(rule.params) == 3:
@@ -134,6 +122,27 @@ def run(idx, rep, tier):
                        "the determinant identities (product, Kronecker exponent N/nᵢ, block multiplicities, diagonal/triangular, cⁿ, Cholesky, P·L·U); the log-magnitude component "
                        "must not be provably non-negative and the sign must depend on what the determinant's sign depends on.")
     rep.assumptions += ["accuracy of the Krylov / stochastic-trace path and branch cuts are not decided", "sizes divide their product: N // n is treated as N / n"]
+
+
+def rule_for_kind(rep, construct, kind, a, v, loc):
+    if kind == "Permutation":
+        comp = v[1] if v[0] == "tuple" else ()
+        dep = any(mentions(c, ("ssym", f"{a}.perm")) for c in comp) if comp else False
+        if v[0] == "tuple" and not dep and not has_opaque(v):
+            rep.refuted("dependence", construct, f"returns {show(snorm(v))}: the sign does not depend on the permutation, but odd permutations have determinant -1",
+                        detail="sign-constant", locs=[loc])
+        else:
+            rep.decide(True if dep else None, "dependence", construct, f"returns {show(snorm(v))}", locs=[loc])
+        return
+    want = oracle(kind, a)
+    if want is None:
+        rep.undecided("rule-algebra", construct, f"no oracle entry for {kind}", locs=[loc])
+        return
+    wt = ("tuple", want)
+    ok = equal(v, wt)
+    rep.decide(ok, "rule-algebra", construct, f"returns {show(snorm(v))}; required {show(snorm(wt))}" + (f" [outside the grammar: {opaque_text(snorm(v))}]" if ok is None else ""),
+               detail="" if ok else "pair", locs=[loc], derivation={"got": show(snorm(v)), "want": show(snorm(wt))})
+    sign_domain(rep, construct, v, loc, krylov=False)
 
 
 def sign_domain(rep, construct, v, loc, krylov):
